@@ -42,8 +42,9 @@ def main():
         if only_missing and os.path.exists(os.path.join(d, name, 'detection.json')):
             continue
         print('=====', name, flush=True)
+        props = [p for p in ALL if p not in ('C13', 'C14') or name.startswith(p)]
         try:
-            seedtool.detect(name, ALL, scratch, tier)
+            seedtool.detect(name, props, scratch, tier)
         except SystemExit as e:
             print('skipped:', e)
     show()
